@@ -74,7 +74,7 @@ const c05PermSlots = 24
 
 func c05Bases(tier string) int {
 	if tier == "thorough" {
-		return 150
+		return 40
 	}
 	return 4
 }
